@@ -286,16 +286,57 @@ def run(ctx) -> None:
                               f"`show` reads another file and `init` writes a second configuration", loc=pk.loc(leaf), witness={"header line": missed[0]} if missed else None)
                     return "SECTION", pol
             raise AnalysisError(f"C19/R4: section test leaf not enumerated: {unparse(leaf)}")
+
+        def unfold_any(e: ast.AST) -> ast.AST:
+            """`any(m in data for m in CONST)` -> `c1 in data or c2 in data ...`"""
+            class U(ast.NodeTransformer):
+                def visit_Call(self, node: ast.Call) -> ast.AST:
+                    self.generic_visit(node)
+                    if unparse(node.func) in ("any", "all") and len(node.args) == 1 and isinstance(node.args[0], (ast.GeneratorExp, ast.ListComp)) and len(node.args[0].generators) == 1 \
+                            and isinstance(node.args[0].generators[0].target, ast.Name) and not node.args[0].generators[0].ifs:
+                        g_ = node.args[0].generators[0]
+                        try:
+                            items = prog.fold(pk.module, g_.iter)
+                        except AnalysisError:
+                            return node
+                        if isinstance(items, (tuple, list)) and items and all(isinstance(x_, (bytes, str)) for x_ in items):
+                            import copy as _cp
+
+                            class S(ast.NodeTransformer):
+                                def __init__(self, v_: T.Any):
+                                    self.v_ = v_
+                                def visit_Name(self, n_: ast.Name) -> ast.AST:
+                                    return ast.Constant(value=self.v_) if n_.id == g_.target.id else n_
+                            vals_ = [S(x_).visit(_cp.deepcopy(node.args[0].elt)) for x_ in items]
+                            return ast.BoolOp(op=ast.Or() if unparse(node.func) == "any" else ast.And(), values=vals_) if len(vals_) > 1 else vals_[0]
+                    return node
+            return U().visit(e)
         # the section test as the path condition states it (atoms may be the operands of a short-circuit test or one
         # boolean local): each atom is replaced by what it means in terms of the byte strings searched for
-        meaning = {a: shapes.bool_expr_bf(inline(ast.parse(a, mode="eval").body), classify) for a in sec_atoms}
+        meaning = {a: shapes.bool_expr_bf(unfold_any(inline(ast.parse(a, mode="eval").body)), classify) for a in sec_atoms}
         sec = r.exists(ex_atom[0]).project(sec_atoms).compose(meaning) if sec_atoms else BF.true()
-        want_sec = (BF.var("bumpver]") | BF.var("pycalver]")) & BF.var("current_version")
-        if "SECTION" in sec.atoms:
-            want_sec = BF.var("SECTION") & BF.var("current_version")
-        ctx.check("R4", r.implies(BF.var(ex_atom[0])) and sec.equiv(want_sec),
-                  "first pass returns the first existing candidate holding a bumpver/pycalver section and current_version",
-                  "config._pick_config_filepath: preference for already configured files changed", f"returns when {r.to_dnf()} with section test {sec.to_dnf()}", loc=pk.loc(first))
+        # decided on sample contents: the atoms are "this byte string occurs in the file"; a file is to be preferred iff it holds
+        # one of the readers' section headers and a current_version key
+        heads = ["[bumpver]", "[tool.bumpver]", "[pycalver]"]
+        foreign = ["[bumpversion]", "[tool.bumpversion]", "[bumpver2]", "[tool.bumpver-next]", "[metadata]"]
+        samples = []
+        for h_ in heads + foreign:
+            for cv_ in (True, False):
+                for end_ in ("\n", "\r\n"):
+                    txt_ = "[metadata]" + end_ + "name = x" + end_ + end_ + h_ + end_ + ("current_version = 1" + end_ if cv_ else "version = 1" + end_)
+                    samples.append((txt_, h_ in heads and cv_, h_ in heads))
+        wrong = None
+        for txt_, want_, has_head_ in samples:
+            f_ = sec
+            for a_ in list(sec.atoms):
+                f_ = f_.restrict(a_, has_head_ if a_ == "SECTION" else (a_.encode() in txt_.encode()))
+            if f_.drop_unused().is_true() != want_ and wrong is None:
+                wrong = {"content": txt_, "preferred": f_.drop_unused().is_true(), "expected": want_}
+        ctx.check("R4", r.implies(BF.var(ex_atom[0])) and wrong is None,
+                  f"first pass returns the first existing candidate holding a bumpver/pycalver section and current_version  [{len(samples)} sample contents]",
+                  "config._pick_config_filepath: preference for already configured files changed",
+                  f"returns when {r.to_dnf()} with section test {sec.to_dnf()}; differs for {wrong!r}: e.g. a pyproject.toml of another tool (`[tool.bumpversion]` with a current_version key) "
+                  f"is taken for the bumpver configuration and the real one is never read" if wrong else "", loc=pk.loc(first), witness=wrong)
         opens = [s_ for s_ in effects.sites[pk.fq] if s_.detail.get("via") == "open"]
         reads = [c for c in ast.walk(first) if isinstance(c, ast.Call) and isinstance(c.func, ast.Attribute) and c.func.attr in ("read", "read_bytes", "read_text", "readline", "readlines", "peek", "read1", "readinto")]
         partial = [c for c in reads if c.func.attr not in ("read", "read_bytes", "read_text") or c.args or (c.func.attr == "read" and c.keywords)]
